@@ -381,6 +381,13 @@ def handleSrvFlush (st : SrvSt) (ni : Server.NiSel) (el : Server.FlushElec) (cod
     | .all => some knownNis
     | .name n => if knownNis.contains n then some [n] else none
     | .unset => none
+  -- … and on the driver's own record of the announcements ("the highest id the server has
+  -- learnt" does not go down when a session announces a lower one): a Flush that this record
+  -- rejects is not answered OK
+  let st := if code = "0" && target.isSome && (Server.checkFlush st.annMax ni el).isSome
+    then (st.monfail "c08" s!"a Flush was answered OK although its election choice does not pass against the highest id announced so far ({showElec st.annMax})").monfail "c04"
+      "a Flush that the election gate had to reject (its id is below the highest announced) was answered OK"
+    else st
   let st := match verdict, target with
     | none, some nis =>
       let st := if code = "0" && result = "1" then st
